@@ -626,6 +626,17 @@ func vfHasFail(sc *vfScenario, kind string) bool {
 	return false
 }
 
+// members of a chain's parallel stages: their output is stored under the output key <name>
+func vfBareList(sc *vfScenario) []string {
+	var out []string
+	for _, st := range sc.Stages {
+		if st.K == "p" {
+			out = append(out, st.Ns...)
+		}
+	}
+	return out
+}
+
 func vfBare(sc *vfScenario, name string) bool {
 	for _, st := range sc.Stages {
 		if st.K == "p" && vfIn(st.Ns, name) {
@@ -640,13 +651,34 @@ func (r *vfRun) buildChain(sc *vfScenario) (*Chain[map[string]any, map[string]an
 	ch := NewChain[map[string]any, map[string]any]()
 	bi := 0
 	for _, st := range sc.Stages {
+		subGraph := func(n string) (AnyGraph, []GraphAddNodeOpt, error) {
+			sub := sc.Sub[n]
+			g, err := r.build(n+"/", sub)
+			return g, []GraphAddNodeOpt{WithGraphCompileOptions(r.compileOpts(sub, nil)...)}, err
+		}
 		switch st.K {
 		case "l":
-			ch.AppendLambda(r.nodeLambda("", sc, st.Ns[0]))
+			if _, ok := sc.Sub[st.Ns[0]]; ok {
+				g, opts, err := subGraph(st.Ns[0])
+				if err != nil {
+					return nil, err
+				}
+				ch.AppendGraph(g, opts...)
+			} else {
+				ch.AppendLambda(r.nodeLambda("", sc, st.Ns[0]))
+			}
 		case "p":
 			par := NewParallel()
 			for _, n := range st.Ns {
-				par.AddLambda(n, r.nodeLambda("", sc, n))
+				if _, ok := sc.Sub[n]; ok {
+					g, opts, err := subGraph(n)
+					if err != nil {
+						return nil, err
+					}
+					par.AddGraph(n, g, opts...)
+				} else {
+					par.AddLambda(n, r.nodeLambda("", sc, n))
+				}
 			}
 			ch.AppendParallel(par)
 		case "b":
@@ -663,7 +695,15 @@ func (r *vfRun) buildChain(sc *vfScenario) (*Chain[map[string]any, map[string]an
 				return chosen[0], nil
 			})
 			for _, n := range st.Ns {
-				cb.AddLambda(n, r.nodeLambda("", sc, n))
+				if _, ok := sc.Sub[n]; ok {
+					g, opts, err := subGraph(n)
+					if err != nil {
+						return nil, err
+					}
+					cb.AddGraph(n, g, opts...)
+				} else {
+					cb.AddLambda(n, r.nodeLambda("", sc, n))
+				}
 			}
 			ch.AppendBranch(cb)
 		}
@@ -1144,7 +1184,7 @@ func vfCaseLine(sc *vfScenario) map[string]any {
 	}
 	return map[string]any{"ev": "case", "id": sc.ID, "mode": sc.Mode, "nodes": vfL(sc.Nodes), "edges": edges, "branches": brs,
 		"max": sc.Max, "before": vfL(sc.Before), "after": vfL(sc.After), "rerun": vfL(sc.Rerun), "state": sc.State,
-		"fail": fails, "noid": sc.NoID, "subs": subs, "calls": vfL(sc.Calls), "post": sc.Post, "hmod": sc.HMod, "echo": vfL(sc.Echo), "x0": "x"}
+		"fail": fails, "noid": sc.NoID, "subs": subs, "calls": vfL(sc.Calls), "post": sc.Post, "hmod": sc.HMod, "echo": vfL(sc.Echo), "x0": "x", "bare": vfL(vfBareList(sc)), "lower": sc.Lower}
 }
 
 var ioEOF = func() error {
